@@ -71,6 +71,9 @@ func (u *Universe) smtText(o *Obligation, forCVC5 bool, wantModel bool) string {
 		}
 	}
 	for _, a := range u.axioms {
+		if o.Relaxed && (strings.Contains(a, "forall") || strings.Contains(a, "exists")) {
+			continue
+		}
 		b.WriteString("(assert " + a + ")\n")
 	}
 	for _, a := range la {
